@@ -64,8 +64,8 @@ def elemsDistinct : List Val → Bool
   | x :: xs => xs.all (fun y => !pyEq x y) && elemsDistinct xs
 
 mutual
-/-- **HasType**: `v` is an instance of the annotation `t`.  Named exclusion `ordered = false`: a Dict field holds a
-    plain `dict` (an OrderedDict breaks the YAML routes: `c05_ordereddict_yaml_witness`) -/
+/-- **HasType**: `v` is an instance of the annotation `t` (Dict fields described as plain dicts; an OrderedDict with the
+    same items is written identically and comes back as that plain dict: `c05_ordered_dict`) -/
 def hasType : FTy → Val → Bool
   | .int, .int _ => true
   | .float, .float _ => true
@@ -1395,16 +1395,33 @@ theorem c05_tuple_key_yaml_witness :
     wire h0 .yaml (.dict false [(.tuple [.int 1, .int 2], .str ['a'])]) = .raise "ConstructorError".toList := by
   rfl
 
-/-- outside `hasType` (`.dict false`): an OrderedDict held by a Dict field stays an OrderedDict in `to_dict`, is written
-    as `!<OrderedDict>` by yaml.dump and refused by safe_load — open finding C05-ordereddict-yaml; the direct / pickle
-    route gives the OrderedDict back and JSON a plain dict (equal as dicts) -/
-theorem c05_ordereddict_yaml_witness :
-    wire h0 .yaml (.dict true [(.str ['a'], .int 1)]) = .raise "ConstructorError".toList := by rfl
+/-- repaired by 36b622d (was the open finding C05-ordereddict-yaml): `encode_dict` builds a plain dict whatever Mapping it
+    is given, so an OrderedDict is written exactly like the dict with the same items … -/
+theorem wire_ordered (ps : List (Val × Val)) : wire henv tr (.dict true ps) = wire henv tr (.dict false ps) := by
+  simp only [wire, encode]
 
-example : wireDecode h0 .id (.dict .str .int) (.dict true [(.str ['a'], .int 1)]) = .ok (.dict true [(.str ['a'], .int 1)]) := by
+/-- … and a Dict annotation holding an OrderedDict comes back, on every transport, as the plain dict with the same items
+    (equal to the OrderedDict under Python `==`, which is all the property asks: "all equal x").  `hasType` describes
+    instances whose Dict fields hold plain dicts; this theorem is the Dict-node form for an OrderedDict, deeper positions
+    (an OrderedDict inside a list / a nested instance) are covered by the examples below and by the generator (p = 0.1). -/
+theorem c05_ordered_dict (k vt : FTy) (ps : List (Val × Val)) (hw : wf (.dict k vt) = true)
+    (hu : primUnions (.dict k vt) = true) (ht : hasType (.dict k vt) (.dict false ps) = true) :
+    wireDecode henv tr (.dict k vt) (.dict true ps) = .ok (.dict false ps) := by
+  have := c05_roundtrip henv tr (.dict k vt) (.dict false ps) hw hu ht
+  unfold wireDecode at this ⊢
+  rw [wire_ordered]; exact this
+
+/-! regression examples for 36b622d: every route gives the equal plain dict back, also from inside a list of an instance -/
+example : wireDecode h0 .yaml (.dict .str .int) (.dict true [(.str ['a'], .int 1)]) = .ok (.dict false [(.str ['a'], .int 1)]) := by
   rfl
-example : wireDecode h0 .json (.dict .str .int) (.dict true [(.str ['a'], .int 1)]) = .ok (.dict false [(.str ['a'], .int 1)]) := by
+example : wireDecode h0 .id (.dict .str .int) (.dict true [(.str ['a'], .int 1)]) = .ok (.dict false [(.str ['a'], .int 1)]) := by
   rfl
+example : wireDecode h0 .json (.dict .int .str) (.dict true [(.int 1, .str ['x'])]) = .ok (.dict false [(.int 1, .str ['x'])]) := by
+  rfl
+example :
+    roundTrip h0 .yaml (.dc ['K'] true [(['l'], FMeta.plain, none, .list (.dict .int .str))])
+      (.inst ['K'] true [(['l'], FMeta.plain, .list [.dict true [(.int 1, .str ['x'])]])]) =
+    .ok (.inst ['K'] true [(['l'], FMeta.plain, .list [.dict false [(.int 1, .str ['x'])]])]) := by rfl
 
 theorem c05_tuple_key_direct_witness :
     wireDecode h0 .id (.dict (.tuple [.int, .int]) .str) (.dict false [(.tuple [.int 1, .int 2], .str ['a'])]) =
